@@ -52,6 +52,11 @@ pub fn tok_menu() -> Vec<String> {
     }
     m
 }
+/// `S-props(K)`: sequences of node-property chunks (two anchor names, tags, aliases) and structure
+pub fn s_props(k: usize) -> StrSpace {
+    let m = ["&a ", "&b ", "!t ", "*a", "*b", "x", "- ", "\n", "[", "]", ", ", ": "];
+    StrSpace::chunks(&format!("props^{k}"), m.iter().map(|s| s.to_string()).collect(), k)
+}
 pub fn s_tok(k: usize) -> StrSpace {
     StrSpace::chunks(&format!("tok^{k}"), tok_menu(), k)
 }
